@@ -193,8 +193,10 @@ pub struct ConnRun {
     pub consumed: usize,
     pub steps: Vec<Step>,
     pub drain: bool,
-    /// live Request objects are dropped immediately unless a caller keeps them (C12 does its own thing)
     pub window: usize,
+    /// keep the popped `Request` objects alive (C12 inspects their files)
+    pub keep: bool,
+    pub kept: Vec<(usize, Request)>,
 }
 
 pub fn panic_msg(e: Box<dyn std::any::Any + Send>) -> String {
@@ -214,7 +216,7 @@ impl ConnRun {
         if let Some(l) = limit {
             conn.set_payload_max_size(l);
         }
-        ConnRun { conn, ss, consumed: 0, steps: Vec::new(), drain, window: 0 }
+        ConnRun { conn, ss, consumed: 0, steps: Vec::new(), drain, window: 0, keep: false, kept: Vec::new() }
     }
 
     pub fn remaining(&self) -> usize {
@@ -289,7 +291,12 @@ impl ConnRun {
         loop {
             let p = catch_unwind(AssertUnwindSafe(|| self.conn.pop_parsed_request()));
             match p {
-                Ok(Some(r)) => reqs.push(delivered_of(&r)),
+                Ok(Some(r)) => {
+                    reqs.push(delivered_of(&r));
+                    if self.keep {
+                        self.kept.push((self.steps.len(), r));
+                    }
+                }
                 Ok(None) => break,
                 Err(p) => return Err(format!("panic in pop_parsed_request: {}", panic_msg(p))),
             }
